@@ -344,8 +344,8 @@ prop(
 
 prop(
     "C22",
-    lean_modules=["BloomVerif.Lemmas.Cursor", "BloomVerif.Props.C22"],
-    technique="Lean 4 proof on the slot LTS (reads only while a slot is held; held slots never exceed the capacity; a blocked worker holds none) + measured concurrent reads across concurrent queries with a stalled consumer",
+    lean_modules=["BloomVerif.Lemmas.Cursor", "BloomVerif.Bridge.Slot", "BloomVerif.Props.C22", "BloomVerif.Props.C22Gen"],
+    technique="Lean 4 proof on the slot LTS (reads only while a slot is held; held slots never exceed the capacity; a blocked worker holds none), with querySlot.acquire/release and the script of Results.deliver regenerated from query_results.go (token conservation, deliver blocks only unheld: Bridge/Slot) + measured concurrent reads across concurrent queries with a stalled consumer",
     design_ref="DESIGN.md section 4 C22",
     text="Machine-checked for any number of workers of any number of queries: reads in progress <= slots held <= MaxQueryConcurrency in every reachable state, and a worker blocked on delivery or dispatch holds no slot. "
          "Partial: 'other queries complete' is liveness, sampled: with capacities 1, 2, 3, several concurrent queries and one consumer that stops reading, the others must finish and the auditing store's maximum of concurrent reads must stay within the cap.",
